@@ -60,6 +60,7 @@ func main() {
 					os.Exit(2)
 				}
 				o.Overlay[kv[0]] = b
+				replayOverlay[kv[0]] = kv[1]
 			}
 			o.NoEvid = true
 		}
